@@ -1,6 +1,6 @@
 SPECIFICATION Spec
 CONSTANTS
-  Alphabet = {97, 39, 34, 92, 36, 10, 126, 58, 123, 125, 91, 93}
+  Alphabet = {97, 39, 34, 92, 36, 10, 126, 58, 123, 125}
   MaxLen = 4
 INVARIANT DesignOK
 INVARIANT RuleShape
